@@ -180,7 +180,7 @@ func RunC09Case(c *C09Case, d *dev.Dev) (o plan.Outcome, class, detail string) {
 		if c.State == "afterfail" {
 			// set the stage: a legal call whose source fails after a few bytes
 			k := int(c.Seed%15) + 1
-			d.Arm(&plan.Dev{Seed: c.Seed, Script: []plan.DevStep{{D: k}, {E: []string{"err", "eof", "ueof"}[c.Seed%3]}, {E: "err"}, {E: "err"}}})
+			d.Arm(&plan.Dev{Seed: c.Seed, Script: []plan.DevStep{{D: k}, {E: []string{"err", "eof", "ueof", "temp", "eagain"}[c.Seed%5]}, {E: "err"}, {E: "err"}}})
 			func() {
 				defer func() { recover() }()
 				_, _ = bip39.NewMnemonic([]int{12, 15, 18, 21, 24}[c.Seed%5], bip39.Language(c.Lang))
